@@ -170,6 +170,26 @@ def receive_rule(ck, agg, nn):
             ok = out.kind == "return" and isinstance(v, Seq) and len(v.items) == 2 and value_matches(v.items[0], False) and value_matches(v.items[1], NETWORK_ACK)
             agg.add("R13.4", f, "a received NETWORK_ACK makes update() return NETWORK_ACK to the waiting caller", ok, "ret_sys_msg=%r: returns %r" % (rsm, v))
             agg.add("R13.4", f, "a received NETWORK_ACK is never queued or answered", not enq and not wr, "ret_sys_msg=%r: enqueued=%d, transmissions=%d" % (rsm, len(enq), len(wr)))
+    # R13.6: a NETWORK_ACK (or anything else) merely passing through is forwarded and NOT reported to the caller - otherwise a
+    # writer waiting for its own NETWORK_ACK would believe a foreign one
+    f2 = P.method(mix, "_handle_frame_for_other_node")
+    S = net.structs(P)
+    for qc in ("FrameQueue", "FrameQueueFrag"):
+        nn.model.opaque[P.method(S[qc], "enqueue").qualname] = net.sum_enqueue
+    for am in (True, False):
+        for mtype in (NETWORK_ACK, 65, 0):
+            n += 1
+            st, node = nn.fresh(frame_pins={"message_type": mtype, "to_node": 0o25}, fields={"allow_multicast": am, "_addr": 0o5, "ret_sys_msg": False})
+            outs = nn.run(f2, node, [mtype], st)
+            for out in outs:
+                v = out.value
+                wr = [e for e in out.trace if e.kind == "summary" and e.data[0] == "_write"]
+                enq = [e for e in out.trace if e.kind == "enqueue"]
+                ok = out.kind == "return" and isinstance(v, Seq) and len(v.items) == 2 and value_matches(v.items[1], 0) and value_matches(v.items[0], True)
+                agg.add("R13.6", f2, "a frame for another node is forwarded without its type being reported to the caller of update()", ok,
+                        "allow_multicast=%r, type %d in transit: handler returns %r - update() would report a foreign frame's type (a foreign NETWORK_ACK would end the origin's wait)" % (am, mtype, v))
+                agg.add("R13.6", f2, "a frame for another node is forwarded exactly once as routed traffic and not queued", len(wr) == 1 and not enq and const_of(norm(wr[0].data[3]["args"][1])) == T.CONSTANTS["TX_ROUTED"],
+                        "allow_multicast=%r: %d forwards, %d enqueues" % (am, len(wr), len(enq)))
     nn.model.opaque.pop(f_write.qualname, None)
     return n
 
